@@ -399,6 +399,7 @@ for _id, _sc in _SCOPES.items():
     PROPERTIES[_id]["rules"].append((G2.G32_library_semantics, "%s library semantics: strip() character sets, split(' '), np.vectorize on empty input, integer reciprocal, row-wise isin, isclose on indices, borrowed string dtypes, array == literal" % _id, {"scope": _sc}))
     PROPERTIES[_id]["rules"].append((G2.G34_scratch_reset_on_every_path, "%s a scratch container emptied inside a loop is emptied on every path to the next iteration" % _id, {"scope": _sc}))
     PROPERTIES[_id]["rules"].append((G2.G39_argmin_then_second_criterion, "%s a second criterion is not applied to the single candidate an argmin picked by the first one" % _id, {"scope": _sc}))
+    PROPERTIES[_id]["rules"].append((G2.G40_collision_test_per_element, "%s a collision between items is not tested element by element against a set that the same item is filling" % _id, {"scope": _sc}))
     PROPERTIES[_id]["rules"].append((G.G12_set_order, "%s a sequence made from a set is not used as an ordered selector" % _id, {"scope": _sc}))
     PROPERTIES[_id]["rules"].append((G.G10_defined_before_use, "%s every read of a local is reached by an assignment (no statement moved above the one that defines its input)" % _id, {"scope": _sc}))
     PROPERTIES[_id]["rules"].append((G.G7_api_contract_pitfalls, "%s API contracts: insertion points as indices, span versus length, memoised functions / caching properties, stored tables tested by truth value" % _id, {"scope": _sc}))
